@@ -6,6 +6,7 @@ C02 — line-protocol driver of the layout model (core only).
   write s:t:f=v,f=v;…                    → ack
   flush | compact <l> | fullcompact | merge | reopen → ok
   read asc|desc <lo> <hi> f,f,…          → rows s:t:v,v|…
+  readlim asc|desc <lo> <hi> f,f,… <k>   → rows …        (at most k rows per series: the limit cursor)
 -/
 import OG.C02.RecAlg
 
@@ -70,6 +71,10 @@ def step (st : St) (line : String) : St × String :=
     match parseARows a, parseARows b with
     | some x, some y => (st, showRec (mergeRecDesc (x.length + y.length + 1) x y))
     | _, _ => (st, "bad-op")
+  | ["readlim", dir, lo, hi, fs, k] =>
+    match lo.toInt?, hi.toInt?, k.toNat? with
+    | some l, some h, some k => (st, showRows (readCellsLim st.cells l h (dir == "asc") (fs.splitOn ",") k))
+    | _, _, _ => (st, "bad-op")
   | ["read", dir, lo, hi, fs] =>
     match lo.toInt?, hi.toInt? with
     | some l, some h => (st, showRows (st.read l h (dir == "asc") (fs.splitOn ",")))
